@@ -230,6 +230,19 @@ fn replay_agg(rep: &mut Report, v: &Value, laws: Option<&Laws3>) {
         }
     }
 
+    // unsigned element types (all values >= 0): a subtraction taken in the element type underflows
+    // as soon as a smaller element follows a larger one
+    if nullfree && all_of(s.iter(), |x| *x >= 0) {
+        let ou64 = |x: Option<u64>| x.map(|v| Obs::I(v as i64)).unwrap_or(Obs::Null);
+        let ousz = |x: Option<usize>| x.map(|v| Obs::I(v as i64)).unwrap_or(Obs::Null);
+        let vu: Vec<u64> = s.iter().map(|x| *x as u64).collect();
+        agg_cell!(rep, v, skey, &e, mp, "Vec<u64>.titer()", vu.titer(), ou64, ou64);
+        let vz: Vec<usize> = s.iter().map(|x| *x as usize).collect();
+        agg_cell!(rep, v, skey, &e, mp, "Vec<usize> (owned)", vz.clone(), ousz, ousz);
+        let vou: Vec<Option<u64>> = s.iter().map(|x| Some(*x as u64)).collect();
+        agg_cell!(rep, v, skey, &e, mp, "Vec<Option<u64>>.titer()", vou.titer(), ou64, |x: Option<Option<u64>>| ou64(x.flatten()));
+    }
+
     // counts of a given value (null counts the nulls)
     for (xk, want) in v["counts"].as_object().unwrap() {
         let x: i64 = xk.parse().unwrap();
